@@ -25,6 +25,14 @@
 //! Grounding: rustdoc of `execute_stream` ("Dropping the stream will abort the execution of the
 //! query, and free up any allocated resources"), `SpawnedTask` ("aborting on Drop").
 //!
+//! Hanging sources (`hang` = Parked | Busy, half of the Drop cases): after its script every source
+//! partition stays `Pending` forever — without waking anybody (a source waiting for data that
+//! never comes) or waking its task every time (busy polling). The query then never completes; the
+//! drop points are k = 0..N plus "at quiescence" (stream pending, no source progress for 64
+//! scheduler rounds / 25 ms), where blocking operators sit on all their buffered input, parked
+//! tasks, reservations and spill files. Only cancellation can release those, so this is where a
+//! missing abort-on-drop shows (with finite sources the tasks simply run to their end).
+//!
 //! Kind `Coop`: every source partition continues with an endless always-ready tail (declared
 //! bounded so that the planner accepts blocking shapes; capped at 30 000 batches as a harness
 //! safety net), the plan went through `EnsureCooperative` (SQL: default optimizer; direct plans: the
@@ -36,8 +44,8 @@
 //! Mode `Timeout`: `tokio::time::timeout(3 ms, collect)` must return `Elapsed` (then the release
 //! oracle) — reaching the source cap first is accepted only if the watcher was never starved.
 //!
-//! Non-trivial: (Drop) some drop point 0 < k < completion had live source streams and ≥ 1 alive
-//! task at the moment of the drop; (Coop) the query was still running when cancelled.
+//! Non-trivial: (Drop) at some drop point 0 < k < completion something was held at the moment of
+//! the drop (live source stream, alive task, reservation, spill file); (Coop) the query was still running when cancelled.
 //!
 //! Deviations from DESIGN.md: Parquet scan is not part of the shapes (no scripted liveness token
 //! inside a file scan; C24/C26 own file scans). Multi-partition outputs are consumed through
@@ -63,6 +71,16 @@ use vf_kit::engine::*;
 
 pub struct C19;
 
+#[derive(Clone, Copy, Debug, Serialize, Deserialize, PartialEq)]
+pub enum Hang {
+    /// sources end after their script
+    No,
+    /// sources stay `Pending` forever after their script without waking anybody
+    Parked,
+    /// sources stay `Pending` forever after their script, waking their task every time
+    Busy,
+}
+
 #[derive(Clone, Debug, Serialize, Deserialize, PartialEq)]
 pub enum Kind {
     Drop,
@@ -81,6 +99,8 @@ pub struct Case {
     pub mt: bool,
     /// consume multi-partition outputs through CoalescePartitionsExec (else one stream per partition)
     pub coalesce: bool,
+    /// Drop kind: what the sources do after their script
+    pub hang: Hang,
 }
 
 const TAIL_CAP: u64 = 30_000;
@@ -114,7 +134,7 @@ fn part_strategy(max_steps: usize, max_rows: usize, errors: bool) -> impl Strate
 }
 
 fn input_strategy(tier: Tier, errors: bool) -> impl Strategy<Value = Vec<PartSpec>> {
-    let (steps, rows) = tier.pick((4, 6), (6, 12));
+    let (steps, rows) = tier.pick((5, 8), (7, 14));
     prop::collection::vec(part_strategy(steps, rows, errors), 1..=3)
 }
 
@@ -157,9 +177,10 @@ fn spills(shape: &Shape) -> bool {
 
 fn case_strategy(tier: Tier) -> BoxedStrategy<Case> {
     let kind = prop_oneof![8 => Just(Kind::Drop), 1 => (1u8..6).prop_map(|after| Kind::CoopAbort { after }), 1 => Just(Kind::CoopTimeout)];
-    (kind, shape_strategy())
-        .prop_flat_map(move |(kind, shape)| {
+    (kind, shape_strategy(), prop::bool::weighted(0.3))
+        .prop_flat_map(move |(kind, shape, errors)| {
             let drop = kind == Kind::Drop;
+            let errors = drop && errors;
             let mem = if drop && spills(&shape) {
                 prop_oneof![1 => Just(None), 3 => prop_oneof![Just(4u16), Just(8u16), Just(16u16), Just(32u16), Just(64u16)].prop_map(Some)].boxed()
             } else {
@@ -169,21 +190,22 @@ fn case_strategy(tier: Tier) -> BoxedStrategy<Case> {
             (
                 Just(kind),
                 Just(shape),
-                input_strategy(tier, drop),
-                input_strategy(tier, drop),
+                input_strategy(tier, errors),
+                input_strategy(tier, errors),
                 1u8..=4,
                 prop_oneof![Just(2u16), Just(5u16), Just(8192u16)],
                 mem,
                 any::<bool>(),
                 pad,
                 any::<bool>(),
-                (prop::bool::weighted(0.3), prop::bool::weighted(0.75)),
+                (prop::bool::weighted(0.3), prop::bool::weighted(0.75), prop_oneof![2 => Just(Hang::No), 1 => Just(Hang::Parked), 1 => Just(Hang::Busy)]),
             )
         })
-        .prop_map(|(kind, shape, a, b, target_partitions, batch_size, mem_kb, fair, pad, streaming_provider, (mt, coalesce))| {
+        .prop_map(|(kind, shape, a, b, target_partitions, batch_size, mem_kb, fair, pad, streaming_provider, (mt, coalesce, hang))| {
+            let hang = if kind == Kind::Drop { hang } else { Hang::No };
             let b = if shape.uses_b() { b } else { vec![] };
             let mt = mt && kind == Kind::Drop;
-            Case { kind, plan: PlanSpec { shape, a, b, target_partitions, batch_size, mem_kb, fair, pad, streaming_provider }, mt, coalesce }
+            Case { kind, plan: PlanSpec { shape, a, b, target_partitions, batch_size, mem_kb, fair, pad, streaming_provider }, mt, coalesce, hang }
         })
         .boxed()
 }
@@ -238,8 +260,12 @@ struct Point {
     rows: usize,
     errored: Option<String>,
     completed: bool,
+    /// hang mode: nothing moved any more although the stream is still pending
+    quiescent: bool,
     live_at_drop: usize,
     tasks_at_drop: usize,
+    /// what was held at the moment of the drop
+    at_drop: Held,
     held: Held,
     settle_steps: usize,
     ops: Vec<String>,
@@ -264,6 +290,42 @@ async fn settle(built: &Built, mt: bool) -> (Held, usize) {
     (h, SETTLE_STEPS)
 }
 
+fn ending_of(case: &Case) -> Ending {
+    match case.hang {
+        Hang::No => Ending::Finish,
+        Hang::Parked => Ending::HangParked,
+        Hang::Busy => Ending::HangBusy,
+    }
+}
+
+/// Next output item, or `Some(None)` once the query is quiescent: the stream is `Pending` and the
+/// sources have not handed out anything for 64 scheduler rounds (current-thread) / 25 ms
+/// (multi-thread). Only decides *where* the drop happens, never the verdict.
+async fn next_or_quiescent(running: &mut Running, monitor: &crate::scripted::Monitor, mt: bool) -> Option<Option<Result<arrow::array::RecordBatch, DataFusionError>>> {
+    let mut idle = 0;
+    let mut seen = (monitor.batches(), monitor.errors());
+    loop {
+        if let std::task::Poll::Ready(item) = futures::poll!(running.streams.next()) {
+            return item.map(Some);
+        }
+        if mt {
+            tokio::time::sleep(Duration::from_millis(1)).await;
+        } else {
+            tokio::task::yield_now().await;
+        }
+        let now = (monitor.batches(), monitor.errors());
+        if now == seen {
+            idle += 1;
+            if idle >= if mt { 25 } else { 64 } {
+                return Some(None);
+            }
+        } else {
+            seen = now;
+            idle = 0;
+        }
+    }
+}
+
 enum PointError {
     Rejected(String),
     Harness(String),
@@ -271,7 +333,7 @@ enum PointError {
 
 /// Execute a fresh copy of the plan, take `k` items (or run to completion), drop, settle.
 async fn run_point(case: &Case, k: usize) -> Result<Point, PointError> {
-    let mut built = match build(&case.plan, None, false).await {
+    let mut built = match build(&case.plan, ending_of(case), false).await {
         Ok(b) => b,
         Err(BuildError::Rejected(m)) => return Err(PointError::Rejected(m)),
         Err(BuildError::Harness(m)) => return Err(PointError::Harness(m)),
@@ -287,16 +349,21 @@ async fn run_point(case: &Case, k: usize) -> Result<Point, PointError> {
         Err(e) => return Err(PointError::Rejected(format!("execute: {e}"))),
     };
     while pt.items < k {
-        match running.streams.next().await {
+        let next = if case.hang == Hang::No { running.streams.next().await.map(Some) } else { next_or_quiescent(&mut running, &built.monitor, case.mt).await };
+        match next {
             None => {
                 pt.completed = true;
                 break;
             }
-            Some(Ok(b)) => {
+            Some(None) => {
+                pt.quiescent = true;
+                break;
+            }
+            Some(Some(Ok(b))) => {
                 pt.items += 1;
                 pt.rows += b.num_rows();
             }
-            Some(Err(e)) => {
+            Some(Some(Err(e))) => {
                 pt.items += 1;
                 pt.errored = Some(e.to_string());
                 break;
@@ -305,8 +372,9 @@ async fn run_point(case: &Case, k: usize) -> Result<Point, PointError> {
     }
     pt.live_at_drop = built.monitor.live_streams();
     pt.tasks_at_drop = tokio::runtime::Handle::current().metrics().num_alive_tasks();
+    pt.at_drop = built.env.held(&built.monitor, 0);
     if let Some(p) = &built.plan {
-        pt.spills = metric_sum(p, "spill_count");
+        pt.spills = spill_count(p);
     }
     drop(running);
     built.plan = None;
@@ -344,6 +412,7 @@ fn base_labels(case: &Case) -> Vec<String> {
         }),
         format!("shape={}", p.shape.name()),
         format!("rt={}", if case.mt { "multi" } else { "current" }),
+        format!("hang={:?}", case.hang),
         format!("provider={}", if p.streaming_provider { "streaming-table" } else { "scripted-exec" }),
     ];
     if p.mem_kb.is_some() {
@@ -392,7 +461,7 @@ fn run_drop(case: &Case) -> CaseResult {
         if !full.held.clean() {
             return CaseResult::violation(format!(
                 "after running to {} and dropping stream + plan, still held after {} scheduler steps: {:?} (ops {:?})",
-                if full.errored.is_some() { "the error" } else { "completion" },
+                if full.errored.is_some() { "the error" } else if full.quiescent { "quiescence (sources hang)" } else { "completion" },
                 full.settle_steps,
                 full.held,
                 full.ops
@@ -403,42 +472,68 @@ fn run_drop(case: &Case) -> CaseResult {
         let mut points = 0u32;
         let mut max_settle = full.settle_steps;
         let mut spilled_at_drop = false;
+        let mut live_tasks = false;
+        let mut quiescent_drop = false;
+        let mut reserved_at_drop = false;
         let mut error_drop = full.errored.is_some();
+        // the full run is itself a drop point (completion / error / quiescence); then k = 0..=n
+        let mut pts: Vec<(Option<usize>, Point)> = vec![(None, full)];
         for k in drop_points(n) {
             let p = match run_point(case, k).await {
                 Ok(p) => p,
                 Err(PointError::Rejected(m)) => return CaseResult::inconclusive(format!("plan rejected on re-build: {}", truncate(&m, 60))),
                 Err(PointError::Harness(m)) => return CaseResult::inconclusive(format!("harness: {m}")),
             };
+            pts.push((Some(k), p));
+        }
+        for (k, p) in &pts {
             points += 1;
             max_settle = max_settle.max(p.settle_steps);
             if !p.held.clean() {
                 return CaseResult::violation(format!(
-                    "drop after {} of {} output items (requested k={k}; error seen: {:?}; completed: {}): still held after {} scheduler steps: {:?}; at the drop {} source streams were alive and {} tasks; ops {:?}",
-                    p.items, n, p.errored, p.completed, p.settle_steps, p.held, p.live_at_drop, p.tasks_at_drop, p.ops
+                    "drop after {} of {} output items (requested k={k:?}; error seen: {:?}; completed: {}; quiescent: {}): still held after {} scheduler steps: {:?}; at the drop {} source streams were alive and {} tasks; ops {:?}",
+                    p.items, n, p.errored, p.completed, p.quiescent, p.settle_steps, p.held, p.live_at_drop, p.tasks_at_drop, p.ops
                 ))
                 .labels(labels.clone());
             }
             if p.errored.is_some() {
                 error_drop = true;
             }
-            if p.items > 0 && !p.completed && p.errored.is_none() && p.live_at_drop > 0 && p.tasks_at_drop > 0 {
+            if (p.items > 0 || p.quiescent) && !p.completed && p.errored.is_none() && !p.at_drop.clean() {
+                if p.quiescent {
+                    quiescent_drop = true;
+                }
                 nontrivial = true;
-                if p.spills > 0 {
+                if p.live_at_drop > 0 && p.tasks_at_drop > 0 {
+                    live_tasks = true;
+                }
+                if p.at_drop.files > 0 {
                     spilled_at_drop = true;
+                }
+                if p.at_drop.reserved > 0 {
+                    reserved_at_drop = true;
                 }
             }
         }
         labels.push(format!("points={}", if points <= 2 { "1-2" } else if points <= 5 { "3-5" } else if points <= 10 { "6-10" } else { "11+" }));
         labels.push(format!("settle={}", if max_settle == 0 { "0" } else if max_settle <= 2 { "1-2" } else if max_settle <= 10 { "3-10" } else { "11+" }));
         if spilled_at_drop {
-            labels.push("drop-while-spilled".into());
+            labels.push("mid-stream-drop-with-spill-files".into());
+        }
+        if reserved_at_drop {
+            labels.push("mid-stream-drop-with-reservation".into());
+        }
+        if quiescent_drop {
+            labels.push("drop-at-quiescence-with-something-held".into());
+        }
+        if live_tasks {
+            labels.push("mid-stream-drop-with-live-sources-and-tasks".into());
         }
         if error_drop {
             labels.push("drop-after-error".into());
         }
         if nontrivial {
-            labels.push("mid-stream-drop-with-live-tasks".into());
+            labels.push("mid-stream-drop-with-something-held".into());
         }
         CaseResult::pass().nontrivial(nontrivial)
     });
@@ -459,7 +554,7 @@ fn run_coop(case: &Case) -> CaseResult {
     };
     let mut labels = base_labels(case);
     let res = rt.block_on(async {
-        let mut built = match build(&case.plan, Some(TAIL_CAP), true).await {
+        let mut built = match build(&case.plan, Ending::Tail(TAIL_CAP), true).await {
             Ok(b) => b,
             Err(BuildError::Rejected(m)) => return CaseResult::discard(format!("rejected: {}", truncate(&m, 50))),
             Err(BuildError::Harness(m)) => return CaseResult::inconclusive(format!("harness: {m}")),
@@ -616,12 +711,12 @@ impl Property for C19 {
         case_strategy(tier)
     }
     fn budget(&self, tier: Tier) -> Budget {
-        Budget::new(tier.pick(320, 16_000), tier.pick(8, 16)).min_nontrivial(tier.pick(80, 4_000)).case_timeout(180)
+        Budget::new(tier.pick(400, 16_000), tier.pick(8, 16)).min_nontrivial(tier.pick(100, 4_000)).case_timeout(180)
     }
     fn rule(&self) -> String {
         "case = plan shape (9 direct physical shapes, 16 SQL shapes) x scripted inputs (1-3 partitions, Rows/Pending/Error steps) x runtime flavour x knobs; \
          Drop cases execute every drop point k=0..N plus completion on a fresh plan; Coop cases run over endless sources with a watcher task. \
-         non-trivial = a drop point strictly inside the stream had live source streams and alive tasks at the drop (Drop) / the query was still running when cancelled (Coop); \
+         non-trivial = at a drop point strictly inside the stream something (source stream, task, reservation, spill file) was held at the drop (Drop) / the query was still running when cancelled (Coop); \
          distinct by case JSON"
             .into()
     }
@@ -640,7 +735,7 @@ impl Property for C19 {
         }
         let rt = runtime(false).ok()?;
         rt.block_on(async {
-            let built = build(&case.plan, Some(1), true).await.ok()?;
+            let built = build(&case.plan, Ending::Tail(1), true).await.ok()?;
             let plan = built.plan.as_ref().or(built.receiver_sources.first())?;
             if has_unwrapped_leaf(plan, false) { Some(SIG_UNWRAPPED_LEAF.to_string()) } else { None }
         })
@@ -649,7 +744,7 @@ impl Property for C19 {
         if std::env::var_os("VF_LIVE_DEBUG").is_some() {
             if let Ok(rt) = runtime(false) {
                 rt.block_on(async {
-                    if let Ok(b) = build(&case.plan, if case.kind == Kind::Drop { None } else { Some(1) }, case.kind != Kind::Drop).await {
+                    if let Ok(b) = build(&case.plan, if case.kind == Kind::Drop { Ending::Finish } else { Ending::Tail(1) }, case.kind != Kind::Drop).await {
                         if let Some(p) = &b.plan {
                             eprintln!("{}", datafusion::physical_plan::displayable(p.as_ref()).indent(true));
                         }
